@@ -376,6 +376,10 @@ spif_str_append(spif_str_t self, spif_str_t other)
     REQUIRE_RVAL(!SPIF_STR_ISNULL(other), FALSE);
     if (other->size && other->len) {
         self->size += other->size - 1;
+        if (self->size <= self->len + other->len) {
+            /* A still-empty string has no room for the terminator yet. */
+            self->size = self->len + other->len + 1;
+        }
         self->s = (spif_charptr_t) REALLOC(self->s, self->size);
         memcpy(self->s + self->len, SPIF_STR_STR(other), other->len + 1);
         self->len += other->len;
@@ -389,7 +393,8 @@ spif_str_append_char(spif_str_t self, spif_char_t c)
     ASSERT_RVAL(!SPIF_STR_ISNULL(self), FALSE);
     self->len++;
     if (self->size <= self->len) {
-        self->size++;
+        /* Room for the text and its terminator, even if the string was still empty. */
+        self->size = self->len + 1;
         self->s = (spif_charptr_t) REALLOC(self->s, self->size);
     }
     self->s[self->len - 1] = c;
@@ -407,6 +412,10 @@ spif_str_append_from_ptr(spif_str_t self, spif_charptr_t other)
     len = strlen((const char *) other);
     if (len) {
         self->size += len;
+        if (self->size <= self->len + len) {
+            /* A still-empty string has no room for the terminator yet. */
+            self->size = self->len + len + 1;
+        }
         self->s = (spif_charptr_t) REALLOC(self->s, self->size);
         memcpy(self->s + self->len, other, len + 1);
         self->len += len;
